@@ -234,6 +234,68 @@ impl Walker {
             });
             return Some(("remove_segment".into(), args, res));
         }
+        let restricted = types.len() > 1
+            && nw.depots_iter().any(|d| types.iter().any(|&o| nw.capacity_of(d, o) == 0) && types.iter().any(|&o| nw.capacity_of(d, o) > 0));
+        if r >= 51 && (r < 54 || (restricted && r < 62)) {
+            // a maintenance-only tour handed over completely (depots included) to a vehicle of
+            // another type: documented as allowed (no service trip in the segment)
+            let donors: Vec<VehicleIdx> = reals
+                .iter()
+                .copied()
+                .filter(|&v| tour_nodes(&s, v).iter().all(|&n| !nw.node(n).is_service()))
+                .collect();
+            if let Some(&p) = self.rng.pick(&donors) {
+                let others: Vec<VehicleIdx> = reals
+                    .iter()
+                    .copied()
+                    .filter(|&v| v != p && s.vehicle_type_of(v).ok() != s.vehicle_type_of(p).ok())
+                    .collect();
+                // mostly a receiver whose type the donor's start depot does not host
+                let sd = tour_nodes(&s, p)[0];
+                let unhosted: Vec<VehicleIdx> = others
+                    .iter()
+                    .copied()
+                    .filter(|&v| nw.capacity_of(nw.get_depot_idx(sd), s.vehicle_type_of(v).unwrap()) == 0)
+                    .collect();
+                let pool = if !unhosted.is_empty() && self.rng.chance(3, 4) { &unhosted } else { &others };
+                if let Some(&rcv) = self.rng.pick(pool) {
+                    let nodes = tour_nodes(&s, p);
+                    let (a, b) = (nodes[0], nodes[nodes.len() - 1]);
+                    let args = json!({"p": p.to_string(), "r": rcv.to_string(), "s": nid(&nw, a), "e": nid(&nw, b)});
+                    let res = guarded(|| match s.override_reassign(Segment::new(a, b), p, rcv) {
+                        Ok((sch, d)) => CallResult::Sched(sch, json!({"dummy": d.map(|x| x.to_string()).unwrap_or_default()})),
+                        Err(e) => CallResult::Failed(e),
+                    });
+                    return Some(("override_reassign".into(), args, res));
+                }
+            } else if types.len() > 1 {
+                // no such tour yet: create one
+                let ms: Vec<NodeIdx> = nw.maintenance_nodes().collect();
+                if let Some(&m) = self.rng.pick(&ms) {
+                    let vt = *self.rng.pick(&types)?;
+                    if room(vt) {
+                        // preferably at a depot that hosts this type but not every other type
+                        let sds: Vec<NodeIdx> = nw
+                            .start_depot_nodes()
+                            .filter(|&d| {
+                                let dep = nw.get_depot_idx(d);
+                                nw.capacity_of(dep, vt) > 0 && types.iter().any(|&o| nw.capacity_of(dep, o) == 0)
+                            })
+                            .collect();
+                        let path = match self.rng.pick(&sds) {
+                            Some(&d) => vec![d, m],
+                            None => vec![m],
+                        };
+                        let args = json!({"ty": type_id(&nw, vt), "path": ids(&nw, &path)});
+                        let res = guarded(|| match s.spawn_vehicle_for_path(vt, path) {
+                            Ok((sch, v)) => CallResult::Sched(sch, json!({"id": v.to_string()})),
+                            Err(e) => CallResult::Failed(e),
+                        });
+                        return Some(("spawn_vehicle_for_path".into(), args, res));
+                    }
+                }
+            }
+        }
         if r < 77 {
             if all.len() < 2 {
                 return None;
